@@ -1,5 +1,11 @@
 //! C01 — parsing and traversing untrusted font bytes never panics or hangs;
 //! observations are a pure function of the bytes. See /verif/DESIGN.md §3.
+//!
+//! Oracle: "returns, and returns the same thing". Every input is walked under
+//! the panic + cpu-time progress monitors (`ctx.run_case`), every caught panic
+//! is judged through `ctx.judge_panic` (so `ctx.policy` decides), and for a
+//! sample of inputs the observation digest is recomputed (a) a second time,
+//! (b) on another thread, (c) on a relocated, differently aligned copy.
 pub mod font;
 pub mod h_core;
 pub mod h_layout;
@@ -7,13 +13,603 @@ pub mod h_misc;
 pub mod h_ps;
 pub mod h_var;
 pub mod obs;
+pub mod payload;
 pub mod sets;
 pub mod walk;
 
-use vf_core::{Args, Ctx};
+use obs::{Obs, WalkCfg, ERR_KINDS};
+use payload::RealArgs;
+use serde_json::{json, Value};
+use vf_core::gen::{self, Patcher, TableRec};
+use vf_core::{fnv64, Args, CorpusFont, Ctx, PanicPolicy, Rng};
 
-pub const REPLAY: Option<fn(&mut Ctx, &Args, &serde_json::Value, Option<&[u8]>)> = None;
+pub const REPLAY: Option<fn(&mut Ctx, &Args, &Value, Option<&[u8]>)> = Some(replay);
 
-pub fn run(ctx: &mut Ctx, _args: &Args) {
-    ctx.rule = "stub".into();
+/// Minimum number of generic fields for an input to count as non-trivial.
+const NONTRIVIAL_FIELDS: u64 = 16;
+
+pub fn run(ctx: &mut Ctx, args: &Args) {
+    ctx.policy = PanicPolicy::Totality;
+    workload(ctx, args)
+}
+
+// ---------------------------------------------------------------- case spec
+
+/// What to do with the input bytes.
+#[derive(Clone, Debug)]
+pub enum Spec {
+    /// whole file: FileRef/CollectionRef/FontRef + all tables + helpers
+    File(WalkCfg),
+    /// bytes are one table payload read directly
+    Payload { tag: [u8; 4], real: RealArgs, cross: bool, cfg: WalkCfg },
+    /// typed scan of small subtable types at every offset
+    Scan { max_offsets: usize, real: RealArgs, cfg: WalkCfg },
+}
+
+impl Spec {
+    pub fn run(&self, bytes: &[u8]) -> Obs {
+        match self {
+            Spec::File(cfg) => font::walk_file(bytes, cfg),
+            Spec::Payload { tag, real, cross, cfg } => payload::walk_payload(bytes, *tag, real, *cross, cfg),
+            Spec::Scan { max_offsets, real, cfg } => payload::scan_payload(bytes, *max_offsets, real, cfg),
+        }
+    }
+    pub fn to_json(&self) -> Value {
+        match self {
+            Spec::File(cfg) => json!({"mode": "file", "cfg": cfg.to_json()}),
+            Spec::Payload { tag, real, cross, cfg } => {
+                json!({"mode": "payload", "tag": String::from_utf8_lossy(tag), "real": real.to_json(), "cross": cross, "cfg": cfg.to_json()})
+            }
+            Spec::Scan { max_offsets, real, cfg } => json!({"mode": "scan", "max_offsets": max_offsets, "real": real.to_json(), "cfg": cfg.to_json()}),
+        }
+    }
+    pub fn from_json(v: &Value) -> Spec {
+        let cfg = WalkCfg::from_json(&v["cfg"]);
+        match v["mode"].as_str() {
+            Some("payload") => {
+                let t = v["tag"].as_str().unwrap_or("    ").as_bytes().to_vec();
+                let mut tag = [b' '; 4];
+                for (i, b) in t.iter().take(4).enumerate() {
+                    tag[i] = *b;
+                }
+                Spec::Payload { tag, real: RealArgs::from_json(&v["real"]), cross: v["cross"].as_bool().unwrap_or(false), cfg }
+            }
+            Some("scan") => Spec::Scan { max_offsets: v["max_offsets"].as_u64().unwrap_or(256) as usize, real: RealArgs::from_json(&v["real"]), cfg },
+            _ => Spec::File(cfg),
+        }
+    }
+}
+
+// ---------------------------------------------------------------- executing one case
+
+struct Runner {
+    /// global work-item counter (sharding key)
+    item: usize,
+    /// determinism check on 1 in `det_every` executed cases
+    det_every: u64,
+    executed: u64,
+}
+
+/// Run one input under all monitors and record evidence.
+#[allow(clippy::too_many_arguments)]
+fn exec(ctx: &mut Ctx, r: &mut Runner, kind: &'static str, font: &str, mutation: &str, bytes: &[u8], spec: &Spec, nt_digest: u64) {
+    r.executed += 1;
+    let det = r.executed % r.det_every == 0;
+    exec_inner(ctx, kind, font, mutation, bytes, spec, nt_digest, det);
+}
+
+#[allow(clippy::too_many_arguments)]
+fn exec_inner(ctx: &mut Ctx, kind: &'static str, font: &str, mutation: &str, bytes: &[u8], spec: &Spec, nt_digest: u64, det: bool) {
+    ctx.eval();
+    ctx.count(kind, 1);
+    let label = || format!("{}:{}:{}", kind, font, mutation);
+    let case = json!({"kind": kind, "font": font, "mutation": mutation, "spec": spec.to_json()});
+    let t0 = vf_core::thread_cpu_ns();
+    let res = ctx.run_case(&label, Some(bytes), &|| spec.run(bytes));
+    ctx.count(&format!("cpu_us:{}", &kind[7..]), vf_core::thread_cpu_ns().saturating_sub(t0) / 1000);
+    let obs = match res {
+        Ok(o) => o,
+        Err(p) => {
+            // a panic outside every guarded section (should not happen; judged all the same)
+            ctx.judge_panic(&p, "walk (unguarded section)", case, Some(bytes));
+            return;
+        }
+    };
+    for (what, p) in &obs.panics {
+        ctx.judge_panic(p, what, case.clone(), Some(bytes));
+        if p.class.is_strict_only() && p.in_repo() {
+            note_strict_site(ctx, p, what, font, mutation);
+        }
+    }
+    record(ctx, &obs, kind, nt_digest);
+    if obs.fields >= NONTRIVIAL_FIELDS && obs.tables_ok > 0 {
+        ctx.sample_by_kind(kind, json!({"font": font, "mutation": mutation, "fields": obs.fields, "tables_ok": obs.tables_ok, "helper_calls": obs.helper_calls, "digest": format!("{:016x}", obs.d.finish())}));
+    }
+    if det {
+        determinism(ctx, &obs, font, mutation, bytes, spec, &case);
+    }
+}
+
+/// One example (message, section, input) per strict-only panic site, for C20.
+fn note_strict_site(ctx: &mut Ctx, p: &vf_core::PanicInfo, what: &str, font: &str, mutation: &str) {
+    use std::sync::Mutex;
+    static SEEN: Mutex<Vec<String>> = Mutex::new(Vec::new());
+    let sig = p.signature();
+    let mut seen = match SEEN.lock() {
+        Ok(s) => s,
+        Err(e) => e.into_inner(),
+    };
+    if seen.contains(&sig) {
+        return;
+    }
+    seen.push(sig.clone());
+    let m: String = mutation.chars().take(120).collect();
+    ctx.label("strict_only_panic_examples", &format!("{} | {} | in {} | {} | {}", sig, p.msg, what, font, m));
+}
+
+fn record(ctx: &mut Ctx, obs: &Obs, _kind: &str, nt_digest: u64) {
+    ctx.count("fields_visited", obs.fields);
+    ctx.count("nodes_visited", obs.nodes);
+    ctx.count("helper_calls", obs.helper_calls);
+    ctx.count("tables_parsed_ok", obs.tables_ok as u64);
+    if obs.budget_hit {
+        ctx.count("field_budget_hit", 1);
+    }
+    for (i, n) in obs.errs.iter().enumerate() {
+        if *n > 0 {
+            ctx.count(ERR_NAMES[i], *n as u64);
+        }
+    }
+    for t in &obs.new_types {
+        ctx.label("types_reached", t);
+    }
+    for h in &obs.new_helpers {
+        ctx.label("helpers_reached", h);
+    }
+    if obs.tables_ok > 0 && obs.fields >= NONTRIVIAL_FIELDS {
+        ctx.nontrivial(nt_digest);
+        ctx.count("nontrivial_inputs", 1);
+    } else if obs.tables_ok == 0 {
+        ctx.count("inputs_nothing_parsed", 1);
+    }
+    ctx.distinct("observation_digests", obs.d.finish());
+}
+
+const ERR_NAMES: [&str; 12] = [
+    "read_error:OutOfBounds",
+    "read_error:InvalidFormat",
+    "read_error:InvalidSfnt",
+    "read_error:InvalidTtc",
+    "read_error:InvalidCollectionIndex",
+    "read_error:InvalidArrayLen",
+    "read_error:ValidationError",
+    "read_error:NullOffset",
+    "read_error:TableIsMissing",
+    "read_error:MetricIsMissing",
+    "read_error:MalformedData",
+    "read_error:postscript::Error",
+];
+const _: () = assert!(ERR_NAMES.len() == ERR_KINDS.len());
+
+/// The purity clause: same bytes => same observations on a second call, on
+/// another thread, and at another address / alignment with other neighbours.
+fn determinism(ctx: &mut Ctx, first: &Obs, font: &str, mutation: &str, bytes: &[u8], spec: &Spec, case: &Value) {
+    ctx.count("determinism_checks", 1);
+    let k0 = first.key();
+    let sigs0 = first.panic_counts.clone();
+    let mut compare = |ctx: &mut Ctx, which: &str, other: Result<Obs, vf_core::PanicInfo>| {
+        let o = match other {
+            Ok(o) => o,
+            Err(p) => {
+                ctx.judge_panic(&p, which, case.clone(), Some(bytes));
+                return;
+            }
+        };
+        if o.key() == k0 {
+            return;
+        }
+        let sigs = o.panic_counts.clone();
+        if sigs != sigs0 {
+            // the difference is a panic that depends on the call / thread /
+            // placement: the panic itself is the refuting event (one finding
+            // per panic site instead of one per input)
+            ctx.count("placement_or_call_dependent_panics", 1);
+            for (what, p) in &o.panics {
+                if sigs0.get(&p.signature()) != sigs.get(&p.signature()) {
+                    ctx.judge_panic(p, &format!("{} [only on {}]", what, which), case.clone(), Some(bytes));
+                }
+            }
+            return;
+        }
+        let sig = format!("nondeterministic:{}:{}:{}", which, font, mutation);
+        ctx.violation(
+            &sig,
+            json!({"what": "observation digest differs for identical bytes", "which": which,
+                   "first": format!("{:?}", k0), "other": format!("{:?}", o.key()), "case": case}),
+            Some(bytes),
+        );
+    };
+    // (a) second call
+    compare(ctx, "second-call", vf_core::guard(|| spec.run(bytes)));
+    // (b) another thread
+    let other = std::thread::scope(|s| {
+        std::thread::Builder::new()
+            .stack_size(8 << 20)
+            .spawn_scoped(s, || vf_core::guard(|| spec.run(bytes)))
+            .ok()
+            .and_then(|h| h.join().ok())
+    });
+    match other {
+        Some(r) => compare(ctx, "other-thread", r),
+        None => ctx.inconclusive("could not run the other-thread determinism check"),
+    }
+    // (c) relocated copies at two different alignments
+    let base = (fnv64(mutation.as_bytes()) % 8) as usize;
+    for (mis, pad, which) in [(base, 0xA5u8, "relocated-a"), ((base + 3) % 8, 0x00, "relocated-b")] {
+        let (owner, range) = gen::relocate(bytes, mis, pad);
+        let moved = &owner[range];
+        compare(ctx, which, vf_core::guard(|| spec.run(moved)));
+    }
+}
+
+/// Public entry for other checks (C20): walk ONE font byte string with the
+/// generic walker and all helpers under `ctx.run_case`; panics are judged by
+/// `ctx.judge_panic`, so `ctx.policy` decides.
+pub fn walk_font(ctx: &mut Ctx, label: &str, bytes: &[u8]) {
+    let spec = Spec::File(WalkCfg::mutant(200_000, None));
+    let nt = fnv64(bytes);
+    exec_inner(ctx, "inputs:external", label, "as-given", bytes, &spec, nt, false);
+}
+
+// ---------------------------------------------------------------- replay
+
+fn replay(ctx: &mut Ctx, _args: &Args, rec: &Value, input: Option<&[u8]>) {
+    if ctx.policy == PanicPolicy::Any {
+        ctx.policy = PanicPolicy::Totality;
+    }
+    let Some(bytes) = input else {
+        ctx.inconclusive("replay record has no input file");
+        return;
+    };
+    // judge_panic wraps the case as detail.case; determinism reports put it at detail.case too
+    let case = &rec["detail"]["case"];
+    let spec = Spec::from_json(&case["spec"]);
+    let font = case["font"].as_str().unwrap_or("?").to_string();
+    let mutation = case["mutation"].as_str().unwrap_or("?").to_string();
+    ctx.rule = rule_text();
+    exec_inner(ctx, "inputs:replay", &font, &mutation, bytes, &spec, fnv64(bytes), true);
+}
+
+fn rule_text() -> String {
+    format!(
+        "an input (whole file, table payload or typed scan) on which at least one table/subtable read succeeded and the generic walker visited >= {} fields; digest = fnv(font id, generator kind, mutation description)",
+        NONTRIVIAL_FIELDS
+    )
+}
+
+// ---------------------------------------------------------------- workload
+
+fn nt(font: &str, kind: &str, mutation: &str) -> u64 {
+    let mut d = vf_core::Digest::new();
+    d.str(font);
+    d.str(kind);
+    d.str(mutation);
+    d.finish()
+}
+
+/// cfg for a mutant of a font of `len` bytes whose edit is confined to `tag`.
+fn mutant_cfg(len: usize, tag: Option<[u8; 4]>) -> WalkCfg {
+    if len <= 16 * 1024 {
+        WalkCfg::mutant(60_000, None)
+    } else {
+        WalkCfg::mutant(40_000, tag)
+    }
+}
+
+pub fn workload(ctx: &mut Ctx, _args: &Args) {
+    ctx.rule = rule_text();
+    ctx.assumptions = vec![
+        "64-bit target (usize arithmetic on u32 font values cannot overflow); 32-bit behaviour is not observed".into(),
+        "COLR PaintId values embed the address of the data by design (cycle detection); they are observed relative to each other, not absolutely".into(),
+        "lazily unbounded iterators (Cmap12::iter without limits, CollectionRef::iter with numFonts = 2^32-1) are consumed through take(N)".into(),
+        "stack overflow / abort are attributed by the driver through trace mode, not by this crate".into(),
+    ];
+    let fonts = vf_core::corpus_fonts();
+    if fonts.is_empty() {
+        ctx.inconclusive("no corpus fonts found");
+        return;
+    }
+    let mut r = Runner { item: 0, det_every: 8, executed: 0 };
+    let seed = ctx.seed;
+
+    corpus_pass(ctx, &mut r, &fonts);
+    file_truncations(ctx, &mut r, &fonts);
+    table_truncations(ctx, &mut r, &fonts);
+    boundary_sweeps(ctx, &mut r, &fonts);
+    directory_edits(ctx, &mut r, &fonts);
+    random_mutants(ctx, &mut r, &fonts, seed);
+    splices(ctx, &mut r, &fonts, seed);
+    payload_mutants(ctx, &mut r, &fonts, seed);
+
+    ctx.extra.insert("fonts_in_corpus".into(), json!(fonts.len()));
+    ctx.extra.insert("work_items_enumerated".into(), json!(r.item));
+}
+
+fn dir_of(bytes: &[u8]) -> Vec<TableRec> {
+    gen::parse_dir(bytes, 0)
+}
+
+/// G1: pristine corpus: full walk, every table payload read directly (own type
+/// with external argument variants + every other type), typed scan.
+fn corpus_pass(ctx: &mut Ctx, r: &mut Runner, fonts: &[CorpusFont]) {
+    for f in fonts {
+        let id = f.id();
+        let bytes: &[u8] = &f.data;
+        r.item += 1;
+        if ctx.mine(r.item) {
+            exec_inner(ctx, "inputs:corpus-file", &id, "pristine", bytes, &Spec::File(WalkCfg::full()), nt(&id, "corpus", ""), true);
+        }
+        let real = RealArgs::of(bytes);
+        for rec in dir_of(bytes) {
+            let payload = &bytes[rec.range(bytes.len())];
+            let tag = rec.tag_str();
+            r.item += 1;
+            if ctx.mine(r.item) {
+                let spec = Spec::Payload { tag: rec.tag, real, cross: true, cfg: WalkCfg { field_budget: 400_000, ..WalkCfg::full() } };
+                exec(ctx, r, "inputs:corpus-payload", &id, &format!("payload:{}", tag), payload, &spec, nt(&id, "payload", &tag));
+            }
+            r.item += 1;
+            if ctx.mine(r.item) {
+                let max = ctx.budget(384, 4096);
+                let spec = Spec::Scan { max_offsets: max, real, cfg: WalkCfg::mutant(300_000, None) };
+                exec(ctx, r, "inputs:corpus-scan", &id, &format!("scan:{}", tag), payload, &spec, nt(&id, "scan", &tag));
+            }
+        }
+    }
+}
+
+/// G2: every prefix of the whole file (dense at the start, geometric after).
+fn file_truncations(ctx: &mut Ctx, r: &mut Runner, fonts: &[CorpusFont]) {
+    let dense = ctx.budget(700, 6000);
+    for f in fonts {
+        let id = f.id();
+        let bytes: &[u8] = &f.data;
+        for p in gen::truncation_points(bytes.len(), dense) {
+            r.item += 1;
+            if !ctx.mine(r.item) {
+                continue;
+            }
+            let m = format!("truncate-file@{}", p);
+            exec(ctx, r, "inputs:truncate-file", &id, &m, &bytes[..p], &Spec::File(mutant_cfg(p, None)), nt(&id, "tf", &m));
+        }
+    }
+}
+
+/// G3: truncation of each table: (a) in the container, by editing the
+/// directory length in place; (b) the truncated payload read directly.
+fn table_truncations(ctx: &mut Ctx, r: &mut Runner, fonts: &[CorpusFont]) {
+    let dense = ctx.budget(160, 4096);
+    for f in fonts {
+        let id = f.id();
+        let mut buf = f.data.to_vec();
+        let dir = dir_of(&buf);
+        let real = RealArgs::of(&buf);
+        let big = buf.len() > 64 * 1024;
+        for rec in &dir {
+            let range = rec.range(buf.len());
+            let tag = rec.tag_str();
+            let dense_here = if big { dense / 2 } else { dense };
+            for p in gen::truncation_points(range.len(), dense_here) {
+                r.item += 1;
+                if !ctx.mine(r.item) {
+                    continue;
+                }
+                let m = format!("truncate-table:{}@{}", tag, p);
+                let mut patch = Patcher::new();
+                patch.set32(&mut buf, rec.rec_pos + 12, p as u32);
+                let cfg = mutant_cfg(buf.len(), Some(rec.tag));
+                exec(ctx, r, "inputs:truncate-table", &id, &m, &buf, &Spec::File(cfg), nt(&id, "tt", &m));
+                patch.undo(&mut buf);
+                let payload = &buf[range.start..range.start + p];
+                let spec = Spec::Payload { tag: rec.tag, real, cross: false, cfg: WalkCfg::mutant(40_000, None) };
+                exec(ctx, r, "inputs:truncate-payload", &id, &m, payload, &spec, nt(&id, "tp", &m));
+            }
+        }
+    }
+}
+
+/// G4: boundary values at every 2/4-byte position of the first 256 bytes of
+/// every table and of the file header / directory (sampled to fit the budget).
+fn boundary_sweeps(ctx: &mut Ctx, r: &mut Runner, fonts: &[CorpusFont]) {
+    let keep_small = ctx.budget(24, 3);
+    let keep_big = ctx.budget(160, 16);
+    for f in fonts {
+        let id = f.id();
+        let mut buf = f.data.to_vec();
+        let len = buf.len();
+        let dir = dir_of(&buf);
+        let keep = if len > 64 * 1024 { keep_big } else { keep_small };
+        let mut regions: Vec<(String, usize, usize, Option<[u8; 4]>)> = vec![("header".into(), 0, (12 + 16 * dir.len()).min(len).max(12.min(len)), None)];
+        if buf.get(0..4) == Some(b"ttcf") {
+            regions[0].2 = len.min(256);
+        }
+        for rec in &dir {
+            let x = rec.range(len);
+            regions.push((rec.tag_str(), x.start, x.end, Some(rec.tag)));
+            // deeper windows (subtables live there): 64 bytes at 1/4, 1/2, 3/4 and the tail
+            if x.len() > 512 {
+                for (k, at) in [x.len() / 4, x.len() / 2, 3 * x.len() / 4, x.len() - 64].into_iter().enumerate() {
+                    let s = x.start + (at & !1);
+                    regions.push((format!("{}+w{}", rec.tag_str(), k), s, (s + 64).min(x.end), Some(rec.tag)));
+                }
+            }
+        }
+        for (name, start, end, tag) in regions {
+            let salt = fnv64(name.as_bytes()) as usize;
+            let base_item = r.item;
+            let mut jobs: Vec<(String, Vec<u8>)> = vec![];
+            // two phases: enumerate selected edits (sweep_region restores the
+            // buffer after each callback), executing inside the callback.
+            let shard = ctx.shard;
+            let mut select = |i: usize| -> bool { (i.wrapping_mul(2654435761).wrapping_add(salt)) % keep == 0 && ((base_item + i) % shard.1 == shard.0) };
+            let mut on = |b: &[u8], desc: &str| {
+                jobs.push((desc.to_string(), b[start..end.min(start + 260)].to_vec()));
+            };
+            let n = gen::sweep_region(&mut buf, start, end, 256, &mut select, &mut on);
+            r.item += n;
+            for (desc, patch_bytes) in jobs {
+                // re-apply the edit (the region prefix) in place, run, restore
+                let mut patch = Patcher::new();
+                patch.set(&mut buf, start, &patch_bytes);
+                let m = format!("sweep:{}:{}", name, desc);
+                let cfg = mutant_cfg(len, tag);
+                exec(ctx, r, "inputs:boundary-sweep", &id, &m, &buf, &Spec::File(cfg), nt(&id, "sw", &m));
+                patch.undo(&mut buf);
+            }
+        }
+    }
+}
+
+/// G6: table-directory edits: offsets / lengths at boundary values, table
+/// count, duplicated / unsorted / renamed tags.
+fn directory_edits(ctx: &mut Ctx, r: &mut Runner, fonts: &[CorpusFont]) {
+    let all_tags: [&[u8; 4]; 12] = [b"glyf", b"loca", b"GPOS", b"GSUB", b"cmap", b"hmtx", b"CFF ", b"gvar", b"COLR", b"name", b"post", b"HVAR"];
+    for f in fonts {
+        let id = f.id();
+        let mut buf = f.data.to_vec();
+        let fl = buf.len() as u32;
+        let dir = dir_of(&buf);
+        let big = buf.len() > 64 * 1024;
+        let mut edits: Vec<(String, usize, Vec<u8>, Option<[u8; 4]>)> = vec![];
+        let n = dir.len() as u16;
+        for v in [0u16, 1, n.wrapping_sub(1), n.wrapping_add(1), 0x7FFF, 0xFFFF] {
+            edits.push((format!("numTables={}", v), 4, v.to_be_bytes().to_vec(), None));
+        }
+        for v in [0u32, 0x4F54544F, 0x74727565, 0x74746366, 0x00020000, 0xFFFFFFFF] {
+            edits.push((format!("sfntVersion={:#x}", v), 0, v.to_be_bytes().to_vec(), None));
+        }
+        for (i, rec) in dir.iter().enumerate() {
+            let other = dir[(i + 1) % dir.len()].offset;
+            let offs = [0u32, 1, rec.offset.wrapping_add(1), rec.offset.wrapping_sub(1), rec.offset.wrapping_add(2), fl.wrapping_sub(1), fl, fl.wrapping_sub(rec.len), fl.wrapping_sub(rec.len).wrapping_add(1), 0xFFFFFFFF, 0x80000000, 0u32.wrapping_sub(rec.len), other];
+            for v in offs {
+                edits.push((format!("dir-offset:{}={:#x}", rec.tag_str(), v), rec.rec_pos + 8, v.to_be_bytes().to_vec(), Some(rec.tag)));
+            }
+            let lens = [0u32, 1, 2, rec.len.wrapping_add(1), rec.len.wrapping_sub(1), fl.wrapping_sub(rec.offset), fl.wrapping_sub(rec.offset).wrapping_add(1), fl, 0xFFFFFFFF, 0x80000000, 0u32.wrapping_sub(rec.offset)];
+            for v in lens {
+                edits.push((format!("dir-length:{}={:#x}", rec.tag_str(), v), rec.rec_pos + 12, v.to_be_bytes().to_vec(), Some(rec.tag)));
+            }
+            // rename this record to another table type (payload read as a different table through the provider)
+            for t in all_tags.iter().filter(|t| ***t != rec.tag).take(if big { 2 } else { 12 }) {
+                edits.push((format!("retag:{}->{}", rec.tag_str(), String::from_utf8_lossy(*t)), rec.rec_pos, t.to_vec(), None));
+            }
+        }
+        for (desc, pos, new, tag) in edits {
+            r.item += 1;
+            if !ctx.mine(r.item) {
+                continue;
+            }
+            let mut patch = Patcher::new();
+            patch.set(&mut buf, pos, &new);
+            let cfg = if desc.starts_with("retag") { mutant_cfg(buf.len().min(1024), None) } else { mutant_cfg(buf.len(), tag) };
+            exec(ctx, r, "inputs:directory-edit", &id, &desc, &buf, &Spec::File(cfg), nt(&id, "de", &desc));
+            patch.undo(&mut buf);
+        }
+    }
+}
+
+/// G5: random structure-aware mutants (1..4 edits each), in place.
+fn random_mutants(ctx: &mut Ctx, r: &mut Runner, fonts: &[CorpusFont], seed: u64) {
+    let per_small = ctx.budget(1400, 14_000);
+    let per_big = ctx.budget(500, 5_000);
+    for (fi, f) in fonts.iter().enumerate() {
+        let id = f.id();
+        let mut buf = f.data.to_vec();
+        let dir = dir_of(&buf);
+        let big = buf.len() > 64 * 1024;
+        let n = if big { per_big } else { per_small };
+        for it in 0..n {
+            r.item += 1;
+            if !ctx.mine(r.item) {
+                continue;
+            }
+            let mut rng = Rng::derive(seed, "c01-mutant", (fi as u64) << 32 | it as u64);
+            let focus = if !dir.is_empty() && (big || rng.chance(1, 2)) { Some(dir[rng.usize(dir.len())].tag) } else { None };
+            let mut patch = Patcher::new();
+            let kinds = gen::mutate_random(&mut buf, &dir, &mut rng, &mut patch, focus.as_ref());
+            let m = format!("random#{}:{}", it, patch.describe());
+            for k in &kinds {
+                ctx.count(&format!("mutation_kind:{}", k), 1);
+            }
+            // edits may touch the directory or other tables: walk everything on
+            // small fonts, the focus table (3 of 4 edits go there) on big ones
+            let cfg = if big { WalkCfg::mutant(40_000, focus) } else { WalkCfg::mutant(60_000, None) };
+            exec(ctx, r, "inputs:random-mutant", &id, &m, &buf, &Spec::File(cfg), nt(&id, "rm", &m));
+            patch.undo(&mut buf);
+        }
+    }
+}
+
+/// G7: splices: a table of font A replaced by a table of font B (same tag or
+/// a compatible one), container re-assembled.
+fn splices(ctx: &mut Ctx, r: &mut Runner, fonts: &[CorpusFont], seed: u64) {
+    let n = ctx.budget(1500, 15_000);
+    let small: Vec<&CorpusFont> = fonts.iter().filter(|f| f.data.len() <= 64 * 1024 && f.data.get(0..4) != Some(b"ttcf")).collect();
+    if small.len() < 2 {
+        return;
+    }
+    for it in 0..n {
+        r.item += 1;
+        if !ctx.mine(r.item) {
+            continue;
+        }
+        let mut rng = Rng::derive(seed, "c01-splice", it as u64);
+        let a = small[rng.usize(small.len())];
+        let b = small[rng.usize(small.len())];
+        let ta = gen::split_tables(&a.data);
+        let tb = gen::split_tables(&b.data);
+        if ta.is_empty() || tb.is_empty() {
+            continue;
+        }
+        let (tag_b, data_b) = &tb[rng.usize(tb.len())];
+        // same tag if A has it (2/3), else under the tag of a random A table
+        let tag = if rng.chance(2, 3) { *tag_b } else { ta[rng.usize(ta.len())].0 };
+        let spliced = gen::with_table(&a.data, &tag, data_b);
+        let m = format!("splice#{}:{}<-{}:{}", it, String::from_utf8_lossy(&tag), b.name, String::from_utf8_lossy(tag_b));
+        exec(ctx, r, "inputs:splice", &a.id(), &m, &spliced, &Spec::File(WalkCfg::mutant(60_000, None)), fnv64(&spliced));
+    }
+}
+
+/// G9: mutated single-table payloads read directly with external arguments.
+fn payload_mutants(ctx: &mut Ctx, r: &mut Runner, fonts: &[CorpusFont], seed: u64) {
+    let per_table = ctx.budget(40, 400);
+    for (fi, f) in fonts.iter().enumerate() {
+        if f.data.len() > 64 * 1024 {
+            continue;
+        }
+        let id = f.id();
+        let bytes: &[u8] = &f.data;
+        let real = RealArgs::of(bytes);
+        for (ti, rec) in dir_of(bytes).iter().enumerate() {
+            let mut payload = bytes[rec.range(bytes.len())].to_vec();
+            if payload.is_empty() {
+                continue;
+            }
+            let tag = rec.tag_str();
+            let fake_dir = vec![TableRec { tag: rec.tag, checksum: 0, offset: 0, len: payload.len() as u32, rec_pos: usize::MAX / 2 }];
+            for it in 0..per_table {
+                r.item += 1;
+                if !ctx.mine(r.item) {
+                    continue;
+                }
+                let mut rng = Rng::derive(seed, "c01-payload", ((fi as u64) << 40) | ((ti as u64) << 24) | it as u64);
+                let mut patch = Patcher::new();
+                gen::mutate_random(&mut payload, &fake_dir, &mut rng, &mut patch, Some(&rec.tag));
+                let m = format!("payload-mutant:{}#{}:{}", tag, it, patch.describe());
+                let cross = it % 8 == 0;
+                let spec = Spec::Payload { tag: rec.tag, real, cross, cfg: WalkCfg::mutant(40_000, None) };
+                exec(ctx, r, "inputs:payload-mutant", &id, &m, &payload, &spec, nt(&id, "pm", &m));
+                patch.undo(&mut payload);
+            }
+        }
+    }
 }
